@@ -2,6 +2,7 @@ package seats
 
 import (
 	"fmt"
+	"os"
 
 	"verif/internal/explore"
 )
@@ -56,7 +57,30 @@ func RunC18(rep *explore.Report, tier string) {
 	rep.Set("rule", fmt.Sprintf("sequential: every reachable seat map of tables with %d..%d seats x every operation incl. out-of-range ids and every rand/map-order answer of Join(-1), occupancy model + no panic; concurrent: every schedule of each harness with at most the stated number of preemptions (scheduling point before every statement and lock operation of seat_manager.go); distinct_nontrivial = distinct end-of-schedule outcomes over all harnesses", lo, hi))
 	runSeq(rep, "C18", tier)
 	RunConcurrent(rep, tier, "")
+	racePass(rep)
 	rep.Set("distinct_nontrivial", rep.Get("concurrent_distinct_outcomes"))
 	rep.Set("evaluations", rep.Get("executions")+rep.Get("schedules"))
 	rep.Assumption("scheduling points at statement granularity and at lock operations; memory-model effects below that are only covered by the separate free-running -race pass of the thorough tier")
+}
+
+// racePass folds the result of the separate free-running -race run (started by scripts/run.sh in the thorough tier) into the report.
+func racePass(rep *explore.Report) {
+	code := os.Getenv("VERIF_RACE_EXIT")
+	if code == "" {
+		rep.Set("race_pass", "not run in this tier")
+		return
+	}
+	log, _ := os.ReadFile(os.Getenv("VERIF_RACE_LOG"))
+	switch code {
+	case "0":
+		rep.Set("race_pass", "free-running -race pass on the un-instrumented seat manager: no race reported (silence proves nothing and is not claimed)")
+	case "buildfail":
+		rep.Set("race_pass", "race build failed: "+firstLine(string(log)))
+	default:
+		msg := string(log)
+		if len(msg) > 1500 {
+			msg = msg[:1500]
+		}
+		rep.Violation(&explore.Violation{Property: "C18", Engine: "none", Signature: "data-race", Message: "the Go race detector reports a data race (or a double seat) in free-running concurrent Join/Leave calls", Observed: msg, Config: []byte(`"cmd/racepass"`), History: []string{"racepass"}})
+	}
 }
